@@ -95,6 +95,21 @@ CHECKS = {
              "65535 refs of one tag is not reached.",
         tech=TECH % ("", "oracle = map reference model incl. enumeration and allocation invariants"),
     ),
+    "C13": dict(
+        profile="handles", cat="exploration", ref="DESIGN.md section 4 C13",
+        text="Seeded search over handle histories on two files: honest open/attach/select/create/release of file, "
+             "access, Vdata, Vgroup, SD, SDS, GR, RI, AN and annotation ids (nested opens of one path in different "
+             "modes incl. read-then-write upgrade, release in any order, Hclose with access ids attached) "
+             "interleaved with an adversary using released ids (query and double release), ids of another kind, of "
+             "the other file, and never issued values. Oracle: live-handle table (every live id answers an identity "
+             "question with its own object), failure values for every adversarial call, refused Hclose leaves file "
+             "and access ids usable, no stream and no attach count left after teardown, ASan. 8 000 / 150 000.",
+        note="SD ids are positional names (released by SDend; numerically re-issued ids are valid); the AN id is the "
+             "file id; ids of other kinds are not passed to H-level/AN calls (known finding, three stored replays). "
+             "The shadow-run comparison of DESIGN 4 C13(3) is not built: adversarial calls are checked by their "
+             "failure value and by the identity table after them.",
+        tech=TECH % ("", "oracle = live-handle table + failure-value checks + sanitizer"),
+    ),
     "C14": dict(
         profile="readonly", cat="exploration", ref="DESIGN.md section 4 C14",
         text="Phase A builds a file with the mixed H/V/VS/SD/GR/AN workload (linked-block, external, chunked, "
